@@ -345,7 +345,15 @@ def tau_energy_obligations(ck, only_frame=False):
         log = []
         ov = {TM.grid_cdf_sampler: lambda interp, grid: SamplerStub(interp, grid, log)}
         ev = {"beta": (0.0, 1.5707963267948966), "logE": (6.0, 12.0), "u": (0.0, 1.0)}
-        sc = Scenario(qn, build_tau_energy(explicit), events=ev, strict=("u",), extras_sym=lambda: {"tables": SymTables()},
+        def specials(rng):
+            out = []
+            for ver in VERSIONS:
+                nt = NativeTables(ver)
+                beta = np.array([nt.beta_max, np.nextafter(nt.beta_max, 0), np.nextafter(nt.beta_max, 9), nt.beta_min, np.nextafter(nt.beta_min, 0), 0.0, 0.4])
+                out.append({"tables": nt, "beta": beta, "logE": np.array([6.0, 7.1, 9.0, 12.0, 8.0, 6.5, 10.0]), "u": np.array([0.5, 0.3, 0.7, 0.2, 0.9, 0.4, 0.6])})
+            return out
+
+        sc = Scenario(qn, build_tau_energy(explicit), events=ev, strict=("u",), extras_sym=lambda: {"tables": SymTables()}, special_native=specials,
                       extras_native=lambda rng: {"tables": NativeTables(VERSIONS[int(rng.integers(0, 3))])},
                       extra_hyps=lambda v: [sp.Lt(v["tables"].beta_min.e, v["tables"].beta_max.e), sp.Gt(v["tables"].beta_min.e, 0)])
         fc = FunctionCheck(ck, qn, sc, spec_tau_energy, ["E_tau"], overrides=ov, spec_overrides={}, rng_inputs=[] if explicit else ["u", "u"])
